@@ -395,7 +395,10 @@ def _explore(job: Job, timeout_ms=10000, max_paths=50000):
     order = []
     for item in vcs:
         pc, qh = item[2], item[6]
-        key = (len(pc), pc[-1].get_id() if pc else 0, len(qh), qh[-1]._ph.get_id() if qh else 0)
+        # identical path condition = the same conjuncts in the same order (z3 terms are hash-consed: equal ids <=> same term).
+        # The key must cover EVERY conjunct: two paths of equal length that end in the same conjunct are different program
+        # points, and proving one path's obligations under the other's condition is unsound.
+        key = (tuple(p.get_id() for p in pc), tuple(q._ph.get_id() for q in qh))
         if key not in groups:
             groups[key] = []
             order.append(key)
